@@ -68,6 +68,9 @@ fn files(quick: bool) -> Vec<(u8, u32, &'static str, bool)> {
         v.push((1, 16, "none", false));
         v.push((2, 24, "none", false));
         v.push((8, 8, "every-2nd", false));
+        // a variable-blocksize stream (grammar-built: frames of 16, 24, 16, 40, 5 samples)
+        v.push((2, 16, "fgen-variable-none", true));
+        v.push((1, 24, "fgen-variable-every-frame", false));
         // 4-byte samples and depths that are not a whole number of bytes (byte width != bits/8), both byte orders
         for (ch, bps) in [(1u8, 32u32), (2, 32), (3, 20), (2, 31), (2, 12), (5, 4)] {
             v.push((ch, bps, "none", true));
